@@ -155,6 +155,11 @@ func detachReferences(changes []schema.Change) []schema.Change {
 				switch c := c.(type) {
 				case *schema.AddForeignKey:
 					fks = append(fks, c)
+				case *schema.ModifyForeignKey:
+					// The modified foreign-key may reference a table that is created later in
+					// the changeset. Drop it now, and add it back with the detached references.
+					rest = append(rest, &schema.DropForeignKey{F: c.From})
+					fks = append(fks, &schema.AddForeignKey{F: c.To})
 				default:
 					rest = append(rest, c)
 				}
